@@ -87,6 +87,15 @@ CHECKS = {
          "Every history of length <= 2 (quick) / <= 3 (thorough) over a ~880-transition alphabet of constructors, setters, slice/element assignments (incl. from-the-end indices and open-ended slices), quaternion updates and operators is executed on the real class (incl. 'construct from an array, then the caller refills that array', 'construct twice from one array, write to one twin', 'derive an object, write through one of the two', open-ended and strided slices, exact half turns through the matrix side, 'matrix-side write then the old vector written back'; angles 2e-5 and 3e-4 added to the property's palette); the coherence invariant is evaluated in every reached state and on every returned object.",
          "Bounded depth and finite value palette (the one the property names); states merged at 1e-9; independent Rodrigues oracle; KF1 band matched as a known finding.", "DESIGN 4/C03"),
 }
+# sentences added to a check's level text by later waves of seeded changes (DESIGN 8.5)
+MORE = {
+ "C02": " The first 8 cases of every function with two same-shaped array parameters are also called with ONE array object for both (reference: separate copies).",
+ "C05": " The alphabet also holds 'a second arm of the same kind is built and used' - alone and, inside one transition, right after randomPos / FK / IK on the arm under test (state shared between two live objects).",
+ "C08": " Arms are also asked with joint limits narrower than the state (every answer must match the port at q as given or at q clamped, as a whole), after the caller edited the link frames of the list it passed in place, and always after ANOTHER arm was asked first in the same process (run and replay alike).",
+ "C10": " The alphabet also holds 'FK(fsolve) / IK, then a second platform of another geometry is built and driven' inside one transition.",
+ "C15": " The quick lattice is also carried to the far corner of the stated range by the integer translation (7,-8,9): 1.25 M pairs, exact, boundary contact included, either corner order.",
+ "C19": " A further configuration has two real UDP objects on fake sockets carrying the SAME display name (depth 4 quick / 5 thorough).",
+}
 ALL = ["C%02d" % i for i in range(1, 21)]
 NOT_YET = "check not built yet in this session (planned, see DESIGN 4); nothing is claimed for it until it is"
 
@@ -96,6 +105,7 @@ def main():
         if pid not in CHECKS:
             continue
         eng, level, tech, text, note, ref = CHECKS[pid]
+        text += MORE.get(pid, "")
         checks.append({
             "property_id": pid,
             "quick_cmd": "./check %s --tier quick" % pid,
